@@ -1046,3 +1046,16 @@ class JunctionTreeAddEdge(Contract):
 
 
 register(JunctionTreeAddEdge())
+
+
+class FGAddEdge(MNAddEdge):
+    """FactorGraph.add_edge: same guard and effect as MarkovNetwork.add_edge (no self loops; exactly the undirected edge is added)."""
+    file = "pgmpy/models/FactorGraph.py"
+    qual = "FactorGraph.add_edge"
+
+    def variants(self, ex):
+        g = new_graph("FactorGraph", "fg", directed=False, latents=False)
+        yield "any", {"self": g, "u": atom("u"), "v": atom("v")}, {}
+
+
+register(FGAddEdge())
